@@ -35,6 +35,19 @@ func init() { register("C10", checkC10) }
 var c10Requests = []string{"textDocument/hover", "textDocument/definition", "textDocument/references", "textDocument/rename", "textDocument/documentSymbol",
 	"workspace/symbol", "textDocument/completion", "textDocument/documentHighlight", "luahelper/getVarColor"}
 
+const c10Prelude = `local Base = { bx = 1 }
+function Base:bm() return self.bx end
+local T = { tx = 2 }
+local obj = setmetatable(T, { __index = Base })
+print(obj.bx, obj.tx, obj:bm())
+---@class Cls1
+---@field cf number
+local cv = {}
+print(cv.cf)
+local um = require("util")
+print(um, Gtab.x, gfun(1))
+`
+
 func genC10(t *rapid.T) C10Case {
 	var c C10Case
 	cfg := luagen.DefaultConfig()
@@ -43,6 +56,13 @@ func genC10(t *rapid.T) C10Case {
 	cfg.NoSameNameInit, cfg.NoFuncInForBounds, cfg.NoFuncInTargetIndex = true, true, true
 	toks := luagen.Program(t, cfg)
 	text, _ := luagen.RenderSimple(toks)
+	// half of the floods work on a file that starts with library idioms whose analysis takes special
+	// paths at request time (metatables, annotated classes, required modules)
+	hot := map[string]bool{}
+	if rapid.Bool().Draw(t, "prelude") {
+		text = c10Prelude + text
+		hot = map[string]bool{"obj": true, "cv": true, "um": true, "Base": true, "T": true}
+	}
 	c.Files = []WSFile{{Path: "main.lua", Text: text}, {Path: "util.lua", Text: "G1 = 1\nfunction gfun(a) return a end\nGtab = { x = 1 }\n"}}
 	cur := text
 	n := rapid.IntRange(20, 80).Draw(t, "nmsgs")
@@ -56,6 +76,19 @@ func genC10(t *rapid.T) C10Case {
 			line, ch := 0, 0
 			if len(toks) > 0 {
 				tk := toks[rapid.IntRange(0, len(toks)-1).Draw(t, "tok")]
+				if len(hot) > 0 && rapid.IntRange(0, 2).Draw(t, "hotTok") == 0 {
+					var hs []reflua.Token
+					for _, x := range toks {
+						if hot[x.Text] {
+							hs = append(hs, x)
+						}
+					}
+					if len(hs) > 0 {
+						tk = hs[rapid.IntRange(0, len(hs)-1).Draw(t, "hotIdx")]
+						// cursor-driven requests dominate on the idioms
+						m = rapid.SampledFrom([]string{"textDocument/hover", "textDocument/hover", "textDocument/definition", "textDocument/completion", "textDocument/documentHighlight", m}).Draw(t, "hotMethod")
+					}
+				}
 				line, ch = refmodel.PosOf(cur, tk.Off)
 			}
 			td := harness.M{"uri": harness.URI("main.lua")}
@@ -75,6 +108,13 @@ func genC10(t *rapid.T) C10Case {
 				p = harness.M{"textDocument": td, "position": harness.Pos(line, ch)}
 			}
 			c.Msgs = append(c.Msgs, C10Msg{Kind: "request", Method: m, Params: harness.J(p)})
+			// bursts: editors re-send the same cursor request while the pointer rests (and several
+			// identical requests in flight overlap most)
+			if rapid.IntRange(0, 4).Draw(t, "burst") == 0 {
+				for b := rapid.IntRange(1, 3).Draw(t, "burstLen"); b > 0; b-- {
+					c.Msgs = append(c.Msgs, C10Msg{Kind: "request", Method: m, Params: harness.J(p)})
+				}
+			}
 		case k <= 7:
 			// the user keeps typing: a small edit that keeps the program valid (append / change a statement)
 			edit := rapid.SampledFrom([]string{"local zz1 = 1\n", "print(G1)\n", "G1 = 2\n", "local zz2 = gfun(1)\n", ""}).Draw(t, "edit")
@@ -163,6 +203,18 @@ func checkC10(c C10Case, env *Env) *Violation {
 	if o.Resp.Fatal != "" || o.Resp.InitError != "" {
 		return violf("inconclusive", "executor: %s %s", o.Resp.Fatal, o.Resp.InitError)
 	}
+	if strings.HasPrefix(c.Files[0].Text, c10Prelude) {
+		// Floods on the idiom prelude are decided by oracle (a) only. Requests on a variable defined with
+		// setmetatable have side effects on the shared analysis (the metatable's fields are merged into
+		// the table's members at request time), so the answers of overlapping requests legitimately
+		// depend on the order in which the server served them; the serialisability oracle below assumes
+		// requests that only read, and enumerating every order of the overlapping requests is out of reach.
+		env.Stats.Class("idiom-prelude-race-oracle-only")
+		if raceBuild {
+			env.Stats.Class("race-detector-build")
+		}
+		return nil
+	}
 	// (b) serialisability: every answer must equal the answer of the same request in a sequential
 	// replay, placed after the notifications sent before it or after any later notification
 	seq, seqSteps := c.script(false)
@@ -213,6 +265,45 @@ func checkC10(c C10Case, env *Env) *Violation {
 			return violf("unanswered", "request %d (%s) got no answer in the flood\n%s", i, flood.Steps[st].Method, c10Show(&c))
 		}
 		got := normJSON(r.Result) + r.Error
+		if !allowed[i][got] && flood.Steps[st].Method != "textDocument/documentHighlight" && flood.Steps[st].Method != "luahelper/getVarColor" {
+			// Requests are not free of side effects (hover / definition on a variable defined with
+			// setmetatable merges the metatable's fields into the table's members), and overlapping
+			// requests may be served in any order: besides the replay that runs every request in sending
+			// order, the order in which this request runs before all other requests is tried — the same
+			// notifications with this request alone at each of its placements.
+			solo := &proto.Request{Cmd: seq.Cmd, Files: seq.Files, InitOptions: seq.InitOptions, CallTimeoutMs: seq.CallTimeoutMs}
+			var soloSteps []int
+			seen := false
+			for si, sst := range seq.Steps {
+				isReq := false
+				for k, rs := range seqSteps {
+					if rs == si {
+						isReq = true
+						if k == i {
+							seen = true
+							soloSteps = append(soloSteps, len(solo.Steps))
+							solo.Steps = append(solo.Steps, sst)
+						}
+					}
+				}
+				if isReq {
+					continue
+				}
+				solo.Steps = append(solo.Steps, sst)
+				if seen && sst.Op == "notify" {
+					soloSteps = append(soloSteps, len(solo.Steps))
+					solo.Steps = append(solo.Steps, seq.Steps[seqSteps[i]])
+				}
+			}
+			if so2 := env.Exec(solo); !so2.Crash() && so2.Resp.Fatal == "" && so2.Resp.InitError == "" {
+				for _, ss := range soloSteps {
+					if r2 := harness.ResultOf(so2.Resp, ss); r2 != nil {
+						allowed[i][normJSON(r2.Result)+r2.Error] = true
+					}
+				}
+				env.Stats.Class("request-order-replay")
+			}
+		}
 		if !allowed[i][got] {
 			if flood.Steps[st].Method == "textDocument/documentHighlight" || flood.Steps[st].Method == "luahelper/getVarColor" {
 				// rate-limited by wall-clock time after an edit: not a function of the message order
